@@ -22,6 +22,7 @@ RULE = ('generated layer DAGs (<= 6 nodes, class and instance layers, adversaria
         'once. One spec in five is a generated source tree run sequentially, listed and with -j N '
         'layer children (header sequence of the relayed output: same order, each layer once). distinct = digest of DAG shape + names + owners; non-trivial = >= 3 layers own '
         'tests. The all-DAGs/all-namings half of the quantifier is only sampled')
+RULE += (' ' + 'Later additions: world specs with children whose report never arrives (their output must stay in place).')
 REAL_VS_STUB = {
     'real': 'Runner with found_suites, find_tests/tests_from_suite, Filter, ordered_layers, '
             'order_by_bases/layer_sort_key/gather_layers, run loop, Listing, OutputFormatter',
